@@ -55,12 +55,44 @@ def run_python(source: str, name: str, args: list):
 		return 'EXC'
 
 
+def needed_text(cpp_text: str, names: list) -> str:
+	"""the emitted text of the called functions and of their `<name>_h` helpers, in emission order"""
+	keep = set()
+	for n in names:
+		keep.add(n)
+		keep.add(n + '_h')
+	out = []
+	for fn in _all_function_names(cpp_text):
+		if fn in keep:
+			out.extend(_function_text(cpp_text, fn))
+	return '\n'.join(out)
+
+
+def _all_function_names(text: str) -> list:
+	out = []
+	for ln in text.split('\n'):
+		m = fronts.FUNC_HEAD.match(ln)
+		if m:
+			out.append(m.group(2))
+	return out
+
+
+def compiles(cpp_text: str, name: str) -> str:
+	"""'' when g++ accepts the emitted text of one function (and its helper), else the diagnostic"""
+	d = prelude.scratch()
+	src = os.path.join(d, f'c{os.getpid()}.cpp')
+	with open(src, 'w') as f:
+		f.write('#include <exception>\n#include <algorithm>\n#include <cstdlib>\n' + needed_text(cpp_text, [name]) + '\n')
+	c = subprocess.run(['g++', '-std=c++20', '-fsyntax-only', '-w', src], capture_output=True, text=True)
+	return '' if c.returncode == 0 else c.stderr[-400:]
+
+
 def run_cpp(cpp_text: str, calls: list) -> list:
 	"""calls: [(name, args)] -> list of results ('EXC' or int) through g++"""
 	if not calls:
 		return []
 	d = prelude.scratch()
-	main = ['#include <exception>', '#include <iostream>', cpp_text, 'int main() {']
+	main = ['#include <exception>', '#include <algorithm>', '#include <cstdlib>', '#include <iostream>', needed_text(cpp_text, [n for n, _ in calls]), 'int main() {']
 	for name, args in calls:
 		a = ', '.join(('true' if x else 'false') if isinstance(x, bool) else str(x) for x in args)
 		main.append(f'\ttry {{ std::cout << (long long)({name}({a})) << "\\n"; }} catch (...) {{ std::cout << "EXC\\n"; }}')
@@ -105,11 +137,26 @@ def handle(entries: list) -> dict:
 	out = []
 	replays = []
 	witnesses = []
+	not_compiling = {}
+	if cpp_text is not None:
+		# "the C++ text tranp emits is accepted by a C++20 compiler": one syntax check per batch, culprits located individually
+		d = prelude.scratch()
+		whole = os.path.join(d, f'b{os.getpid()}.cpp')
+		with open(whole, 'w') as f:
+			f.write('#include <exception>\n#include <algorithm>\n#include <cstdlib>\n' + cpp_text)
+		if subprocess.run(['g++', '-std=c++20', '-fsyntax-only', '-w', '-x', 'c++', whole], capture_output=True, text=True).returncode != 0:
+			for name, _, _ in entries:
+				diag = compiles(cpp_text, name)
+				if diag:
+					not_compiling[name] = diag
 	for name, cat, src in entries:
 		rec = {'name': name, 'category': cat, 'source': src}
 		out.append(rec)
 		if name in rejected:
 			rec.update(verdict='rejected', detail=rejected[name])
+			continue
+		if name in not_compiling:
+			rec.update(verdict='compile_error', detail=not_compiling[name], cpp='\n'.join(_function_text(cpp_text, name)))
 			continue
 		text = cpp_text if cpp_text is not None else emitted[name]
 		try:
